@@ -29,6 +29,17 @@ def dict_programs(rng, n):
     return out
 
 
+def big_dict_errors():
+    keys = ["alpha", "bravo", "charlie", "delta", "echo", "foxtrot", "golf", "hotel", "india", "juliet", "kilo", "lima"]
+    out = []
+    for n in (2, 8, 9, 12):
+        build = "".join(f"let the book at \"{k}\" be {i + 1}\n" for i, k in enumerate(keys[:n])) + "let the book at null be 0\nlet the book at true be 13\n"
+        for err in ("turn up the book", "say the book is greater than true", "cut the book", "cast the book", "say the book at the book", "let X at the book be 1",
+                    "join the book", "say 1 over the book is less than the book", "say not the book"):
+            out.append(build + "say \"built\"\n" + err + "\nsay \"after\"\n")
+    return out
+
+
 def run(chk):
     proved = setup(chk, "C10")
     C.build_rrss_bin()
@@ -36,7 +47,7 @@ def run(chk):
     quick = chk.tier == "quick"
     progs = dict_programs(rng, 120 if quick else 1200)
     gen = exec_cases(chk, 80 if quick else 800, focus={"array": 6, "mutation": 3}, salt=110)
-    progs += [g["src"] for g in gen] + [c["src"] for c in corpus_cases("exec")]
+    progs += [g["src"] for g in gen] + [c["src"] for c in corpus_cases("exec")] + big_dict_errors()
     cases = [{"src": p, "stdin": "x\ny\n"} for p in progs]
     recs = execsuite.run(chk, cases, "run1", suite_name="EXEC-dict")
     # repeated executions: in the same process (each HashMap gets a new RandomState) and in fresh processes
